@@ -25,7 +25,7 @@ var c09Names = []string{"p", "p.txt", "d/q", "d/e/r", "d.x", "d-y", "s t", "ü",
 
 func c09Opts() *progOpts {
 	return &progOpts{Buckets: []string{"vb1", "vb2"}, Names: c09Names, FileRules: true, CondPct: 25, JunkPct: 3, MD5Pct: 20, BigPerMille: 3,
-		W: map[string]int{"upload": 22, "overwrite": 16, "burst": 3, "delete": 14, "delete_absent": 3, "patch": 10, "patch_full": 7, "patch_burst": 3, "patch_absent": 2, "compose": 9, "copy": 10, "noop": 2}}
+		W: map[string]int{"upload": 22, "overwrite": 16, "burst": 3, "delete": 14, "delete_absent": 3, "patch": 10, "patch_full": 7, "patch_burst": 3, "patch_absent": 2, "compose": 9, "copy": 10, "bucket_cycle": 3, "noop": 2}}
 }
 
 // C09: the file store persists everything and is equivalent to the memory store.
